@@ -166,10 +166,12 @@ Definition c14_413 (k : wr_case) : bool :=
    handler wrote (within the size limit, if any), with the handler's status; compressed only if allowed *)
 Definition handler_status (cs : list wcall) : Z := v_status (view (base_run base0 cs)).
 Definition c15_decodes (k : wr_case) : bool :=
-  if has_gz (w_chain k) && Z.eqb (nth 0 (w_obs k) 0) 1 && wf_script (w_script k) && negb (w_head k) then
+  if has_gz (w_chain k) && Z.eqb (nth 0 (w_obs k) 0) 1 && negb (w_head k) && negb (has_sl (w_chain k)) then
     let direct := view (base_run base0 (w_script k)) in
-    (if has_sl (w_chain k) then true
-     else Z.eqb (nth 6 (w_obs k) 0) (oz (v_decoded direct)) && Z.eqb (nth 3 (w_obs k) 0) (v_status direct))
+    (* the status is the handler's for EVERY script (a second WriteHeader is as superfluous behind the plugin as without it);
+       the body claim is made for well-formed scripts *)
+    Z.eqb (nth 3 (w_obs k) 0) (v_status direct)
+    && (if wf_script (w_script k) then Z.eqb (nth 6 (w_obs k) 0) (oz (v_decoded direct)) else true)
   else true.
 Definition c15_only_if (k : wr_case) : bool :=
   (* compressed (ce observed 1 although the script did not set it) only if AE lists gzip *)
